@@ -83,6 +83,10 @@ pub fn drive(ctx: &mut Ctx) {
 	{
 		like!(ctx, "CompactRef<CA>", WrapCRCA => Compact<CA>, Compact<CA>, |b| WrapCRCA(b.0));
 		like!(ctx, "derive self", SNamed => SNamed, SNamed, |b| b.clone());
+		// zero-sized in memory, one byte on the wire: boxes must still read it
+		like!(ctx, "zst/Box<zst>", (EV1, u8) => (Box<EV1>, u8), (Box<EV1>, u8), |b| (EV1::V1, b.1));
+		like!(ctx, "zst/Rc<zst>", (EV1, u16) => (Rc<EV1>, u16), (Rc<EV1>, u16), |b| (EV1::V1, b.1));
+		like!(ctx, "Vec<zst>/Vec<Arc<zst>>", Vec<EV1> => Vec<Arc<EV1>>, Vec<Arc<EV1>>, |b| b.iter().map(|_| EV1::V1).collect());
 		like!(ctx, "&derive/derive", &EPlain => EPlain, EPlain, |b| &b);
 		like!(ctx, "Vec<&derive>/Vec<derive>", Vec<&SCompact> => Vec<SCompact>, Vec<SCompact>, |b| b.iter().collect());
 	}
